@@ -61,7 +61,9 @@ CfgOf(t, s) ==
      dtls    |-> s.cfg.dtls,
      eskip   |-> s.role = "S" /\ t.ver = "T13" /\ t.ged = 1 /\ t.se = 0,
      med     |-> t.med,
-     limbo   |-> s.role = "C" /\ t.tick = 4,       \* SESS_TICKET_STATE_IN_LIMBO
+     \* SESS_TICKET_STATE_IN_LIMBO - and only a client that put a ticket (not the empty extension) into its ClientHello
+     \* can be in doubt about it: what it sent is taken from its state right after the ClientHello was written
+     limbo   |-> s.role = "C" /\ t.tick = 4 /\ s.offered,
      retry   |-> t.hs = s.hs]
 
 ObsDead(t, s) == t.err = 1 \/ t.closed = 1 \/ FatalSealed(t) \/ t.rc = "Error" \/ s.dead # "no"
@@ -80,6 +82,8 @@ MatchRecv(t, s, r, res) ==
     /\ (res.loose /\ Live(n)) => /\ Accs(t) = <<>> /\ Len(t.alin) = 0
                                 /\ (t.rc \in {"RequestRecv", "Success"} \/ (s.cfg.dtls /\ t.rc = "RequestSend"))
                                 /\ (s.cfg.dtls => ((t.rs = 1) = ReadSecure(s)))
+                                \* ... and nothing changed: the handshake state and the read protection are what they were
+                                /\ t.hs = s.hs /\ (t.rs = 1) = ReadSecure(s)
     /\ Len(t.dlv) = res.ndlv
     /\ r.gen => \A i \in 1..Len(t.dlv) : t.dlv[i].ok = 1  \* what is delivered is what the peer application sent
     /\ ObsDead(t, s) = (n.dead # "no")
@@ -146,7 +150,9 @@ TNew ==
             /\ t.hs \in InitialStates
             /\ (t.role = "C") = (t.hs \in {"SERVER_HELLO", "T13_WAIT_SH"})
             /\ sess' = [x \in DOMAIN sess \cup {t.ep} |->
-                           IF x = t.ep THEN InitSess(t.role, t.hs, t.ver \in {"D10", "D12"}) ELSE sess[x]]
+                           IF x = t.ep THEN InitSess(t.role, t.hs, t.ver \in {"D10", "D12"})
+                                            @@ [offered |-> t.role = "C" /\ "tick" \in DOMAIN t /\ t.tick = 2]     \* SESS_TICKET_STATE_SENT_TICKET
+                           ELSE sess[x]]
 
 TDel ==
     /\ IsEvent({"del"})
